@@ -246,3 +246,9 @@ int drive_throw_mixed(int pos, int a, int b, int c, int e, int s0, int s1, int s
     g_fin_done = g.done() ? 1 : 0; g_fin_bool = g ? 1 : 0;
     return 1; }
 }
+
+// instantiation of the rvalue-argument overloads (next(Arg&&), operator()(Arg&&)): stepping with a temporary argument (C20: no allocation; seed C20-4)
+extern "C" int drv_inst_rvalue_arg(int k, int x) {
+    g_frame_kind = FK_ARG; auto g = gen_arg(k, 1, 2, 3); int n = 0;
+    if (g.next(int(x))) n++;
+    return n; }
